@@ -236,6 +236,25 @@ fn build_cases(tier: Tier) -> Vec<Case> {
             }
         }
     }
+    // A2. filter predicates bit by bit: two kinds of packets whose FEE ids (link ids) differ in exactly one bit
+    for bit in 0..16u16 {
+        let a = Rdh::its_fee_id(5, 3, 0);
+        let b = a ^ (1 << bit);
+        let pk: Vec<Packet> = (0..6).map(|i| gen::arbitrary_framed(4, if i % 2 == 0 { a } else { b }, 16 + 16 * (i % 3), 31_000 + (bit as u64) * 10 + i as u64)).collect();
+        let bytes = Arc::new(stream::to_bytes(&pk));
+        for f in [Filter::LayerStave(a), Filter::LayerStave(b), Filter::Fee(a), Filter::Fee(b)] {
+            for skip in [false, true] {
+                cases.push(Case { bytes: bytes.clone(), filter: Some(f), skip, pipe: false, chunk: 0, cap: 0, label: format!("fee ids differ in bit {bit}") });
+            }
+        }
+    }
+    for bit in 0..8u8 {
+        let pk: Vec<Packet> = (0..6).map(|i| gen::arbitrary_framed(if i % 2 == 0 { 2 } else { 2 ^ (1 << bit) }, gen::fee_of_link(0), 32, 32_000 + (bit as u64) * 10 + i as u64)).collect();
+        let bytes = Arc::new(stream::to_bytes(&pk));
+        for f in [Filter::Link(2), Filter::Link(2 ^ (1 << bit))] {
+            cases.push(Case { bytes: bytes.clone(), filter: Some(f), skip: false, pipe: true, chunk: 0, cap: 0, label: format!("link ids differ in bit {bit}") });
+        }
+    }
     // B. batch boundaries through the real reader thread
     for cap in [1usize, 2, 3, 100] {
         let counts: Vec<usize> = if cap == 100 {
